@@ -1009,6 +1009,12 @@ func transferCallBuiltin(g *EscapeGraph, instr ssa.Instruction, builtin *ssa.Bui
 		for baseArray := range g.Pointees(sliceArg) {
 			g.WeakAssign(allocArray, baseArray) // TODO: use a field representing the contents?
 		}
+		// The appended contents are also written directly to the new array. This matters when slice
+		// has no backing array in the abstract state (e.g. `append(nil, x...)`): the loop above is
+		// then empty, and the contents of x would otherwise be dropped.
+		for xArray := range g.Pointees(xArg) {
+			g.WeakAssign(allocArray, xArray)
+		}
 		g.AddEdge(ret, allocArray, EdgeInternal)
 		return nil
 	case "copy":
